@@ -545,3 +545,36 @@ Theorem C15_sex_quarter_is_sharp :
   bounded_noise (1 # 4) 0 false false None quarter_witness /\
   forall gstat : mtable -> Q, sex_decision gstat false None quarter_witness = Some false.
 Proof. exact quarter_is_sharp. Qed.
+
+(* ============================================================================================== *)
+(* loop ties / function-body ties, second batch (LOOP_TIES_GUIDE.md; specs tools/fnspecs/cnary_loops.py): whole bodies,
+   dispatch code and per-row code of cnvlib/cnary.py translated on every run, each equal to the model's function *)
+From CNV Require Proofs.FnCnaryXFilter Proofs.FnCnaryYFilter.
+
+(* parx_filter, the whole function per row: on chrX (the table's label) and inside PAR1X or PAR2X of the build *)
+Theorem C15_source_parx_filter : forall t p b gb,
+  parx_filter t p b =
+  let '(s1, e1, s2, e2) := par_x p in
+  Gen.FnCnaryXFilter.fn_parx_filter (b_chrom b) (b_start b) (b_end b) gb (x_label t) s1 e1 s2 e2.
+Proof. exact Proofs.FnCnaryXFilter.fn_parx_filter_eq. Qed.
+
+(* chr_x_filter, the whole function per row: on chrX, and outside the PAR when a build is given -- the inner call is the
+   generated parx_filter *)
+Theorem C15_source_chr_x_filter : forall t build b gb,
+  chr_x_filter t build b =
+  Gen.FnCnaryXFilter.fn_chr_x_filter (b_chrom b) (x_label t) (Proofs.FnCnaryXFilter.has_build_x build)
+                                     (Proofs.FnCnaryXFilter.fn_parx_of t build gb b).
+Proof. exact Proofs.FnCnaryXFilter.fn_chr_x_filter_eq. Qed.
+
+(* pary_filter / chr_y_filter likewise *)
+Theorem C15_source_pary_filter : forall t p b gb,
+  pary_filter t p b =
+  let '(s1, e1, s2, e2) := par_y p in
+  Gen.FnCnaryYFilter.fn_pary_filter (b_chrom b) (b_start b) (b_end b) gb (y_label t) s1 e1 s2 e2.
+Proof. exact Proofs.FnCnaryYFilter.fn_pary_filter_eq. Qed.
+
+Theorem C15_source_chr_y_filter : forall t build b gb,
+  chr_y_filter t build b =
+  Gen.FnCnaryYFilter.fn_chr_y_filter (b_chrom b) (y_label t) (Proofs.FnCnaryYFilter.has_build_y build)
+                                     (Proofs.FnCnaryYFilter.fn_pary_of t build gb b).
+Proof. exact Proofs.FnCnaryYFilter.fn_chr_y_filter_eq. Qed.
